@@ -3,6 +3,11 @@
 import json, subprocess
 ALL=[f"C{i:02d}" for i in range(1,21)]
 CHECKS={
+ "C12": dict(level="exploration", engine="E1-dfs",
+   technique="exhaustive enumeration of datagram sizes / buffer relations / bursts on real sockets; membership call sequences explored differentially against a reference socket driven by raw setsockopt, with a fence datagram before every negative verdict; setter sequences against getsockopt",
+   text="Every datagram size 1..1472 plus 1473/4096/9000/65507 to a packet conn and to a multicast peer, read (buffer shorter/exact/longer, bursts of <=3 from <=2 senders, early/forced-deferred start) and write (received by a raw socket): one completion per datagram with exact bytes, length and sender address. All sequences of up to 3/4 membership calls (Join, Leave, JoinSource, LeaveSource, BlockSource, UnblockSource over 2 groups x 2 sources): same success/failure as the raw request and same delivery as the reference socket for a probe per group after every call. All sequences of up to 3 setters x 5 bind forms: getters equal the kernel state. SetAsyncReadBuffer chains land in the latest buffer.",
+   note="Boundaries run on loopback; membership needs a multicast-capable interface (if none exists those executions are inconclusive and the run is reported non-exhaustive); one real source address; the Loop() getter of a new peer is a known finding pinned by the repository's own test.",
+   design="4/C12"),
  "C13": dict(level="fault_enumeration", engine="E1-dfs",
    technique="enumeration of failure points (k-th descriptor allocation via a filled descriptor table, refused/unreachable/conflicting/non-local endpoints, failing options), of close/create sequences, and of GC placements, each judged by a descriptor census (fstat identity) or weak-pointer reachability",
    text="(a) every constructor {NewIO, NewTimer, Dial TCP/UDP, DialTimeout, Listen, Accept, NewPacketConn, NewUDPPeer, Open, NewMirroredBuffer} x descriptor exhaustion at allocation k=1..6 and every applicable endpoint fault: census before == after a failed call, Close after a successful one restores it; (b) all sequences of up to 4 actions {close (repeatable), owner-close, create} over 8 object kinds: every object the scenario has not closed keeps the same kernel object under its descriptor, a first Close closes exactly the object's own descriptors; (c) 6 kinds x 5 in-flight shapes x GC at each of two points: the completion callback of every in-flight operation stays reachable and the completion is delivered. Handshake failure points are explored in C18's driver with the same census.",
